@@ -151,10 +151,49 @@ func c12Encoders() []c12Enc {
 	}
 }
 
+// c12HeldEncoders: the encoders as a caller that keeps using ONE encoder object sees them (the
+// protocol codec's Encoder is a long-lived, pooled object; the others are plain functions).
+func c12HeldEncoders() []c12Enc {
+	held := types.NewEncoder()
+	out := []c12Enc{{"types.Encoder.EncodeUint", func(v uint64) []byte {
+		b, err := held.EncodeUint(v)
+		if err != nil {
+			return nil
+		}
+		return b
+	}}}
+	return append(out, c12Encoders()[1:]...)
+}
+
 type c12Case struct {
-	Mode  string `json:"mode"` // "dec" | "enc"
+	Mode  string `json:"mode"` // "dec" | "enc" | "held"
 	Input string `json:"input,omitempty"`
 	Value uint64 `json:"value,omitempty"`
+	Next  uint64 `json:"next,omitempty"`
+}
+
+// c12CheckHeld: E(a) is still E(a) after the same encoder has encoded b (the caller holds the first
+// result while it encodes the next number, as every "count prefix, then items" site does).
+func c12CheckHeld(r *vlib.Run, encs []c12Enc, a, b uint64) {
+	ra, rb := c12RefEncode(a), c12RefEncode(b)
+	r.Eval()
+	r.Class(fmt.Sprintf("held len=%d then len=%d", len(ra), len(rb)))
+	c := c12Case{Mode: "held", Value: a, Next: b}
+	key := fmt.Sprintf("l=%d,next-l=%d", len(ra)-1, len(rb)-1)
+	for _, e := range encs {
+		e := e
+		var x, y []byte
+		p, msg, _ := vlib.Guard(func() { x = e.f(a); y = e.f(b) })
+		r.Transition()
+		switch {
+		case p:
+			r.Violation(e.name, "go-panic", key, fmt.Sprintf("values %d then %d: Go panic %s", a, b, msg), c)
+		case !bytes.Equal(y, rb):
+			r.Violation(e.name, "encoder-mismatch-after-earlier-call", key, fmt.Sprintf("value %d encoded after %d as %x, reference %x", b, a, y, rb), c)
+		case !bytes.Equal(x, ra):
+			r.Violation(e.name, "earlier-result-overwritten", key, fmt.Sprintf("the encoding of %d read %x (reference %x) once the same encoder had encoded %d", a, x, ra, b), c)
+		}
+	}
 }
 
 func c12CheckDec(r *vlib.Run, decs []c12Dec, in []byte) {
@@ -224,6 +263,8 @@ func TestVerif_C12(t *testing.T) {
 	if r.IsReplay(&rc) {
 		if rc.Mode == "dec" {
 			c12CheckDec(r, decs, vlib.Unhex(rc.Input))
+		} else if rc.Mode == "held" {
+			c12CheckHeld(r, c12HeldEncoders(), rc.Value, rc.Next)
 		} else {
 			c12CheckEnc(r, encs, decs, rc.Value)
 		}
@@ -318,6 +359,28 @@ func TestVerif_C12(t *testing.T) {
 			if r.WantSample() {
 				r.Sample(map[string]interface{}{"encode_value": v, "reference": vlib.Hex(c12RefEncode(v))})
 			}
+		}
+	}
+	// (iv) every ordered pair of boundary values (2^k-1, 2^k for every k, i.e. both ends of every
+	// length class) through one held encoder object: the first result must survive the second call
+	var bv []uint64
+	for k := 0; k <= 64; k += 1 {
+		if k < 64 {
+			bv = append(bv, uint64(1)<<uint(k))
+		}
+		if k > 0 {
+			bv = append(bv, uint64(1)<<uint(k-1)*2-1)
+		}
+	}
+	held := c12HeldEncoders()
+	for _, a := range bv {
+		for _, b := range bv {
+			idx++
+			if !r.Mine(idx) {
+				continue
+			}
+			r.Space(1)
+			c12CheckHeld(r, held, a, b)
 		}
 	}
 }
